@@ -98,7 +98,8 @@ def _lin(seed):
 
 class Entry:
     def __init__(self, name, make, task, kw=None, mode="max", feat=True, samplewise=False,
-                 binary=False, max_bs=None, slow=False, needs_labels=False, wrapper=False, setdep=False, anyidx=None, subsample=None, stochastic=False):
+                 binary=False, max_bs=None, slow=False, needs_labels=False, wrapper=False, setdep=False, anyidx=None, subsample=None, stochastic=False,
+                 variant=False):
         self.name, self.make, self.task = name, make, task
         self.kw = kw or (lambda classes, seed: {})
         self.mode, self.feat, self.samplewise = mode, feat, samplewise
@@ -107,6 +108,8 @@ class Entry:
         self.anyidx = samplewise if anyidx is None else anyidx
         self.subsample = subsample   # documented sub-sample fraction (SubSamplingWrapper)
         self.stochastic = stochastic  # scores are Monte-Carlo / bootstrap estimates: draws are consumed in row order
+        self.variant = variant        # a non-default parameter setting of a strategy that also has a base entry ("Name{param=...}")
+        self.base = name.split("{")[0]
 
 
 def registry():
@@ -164,8 +167,79 @@ def registry():
                                                                                    exclude_non_subsample=True, random_state=s),
                    "clf", lambda c, s: {"clf": _clf(c, s)}, wrapper=True, setdep=True, subsample=0.5))
     E.append(Entry("ParallelUtilityEstimationWrapper", lambda c, s: P.ParallelUtilityEstimationWrapper(query_strategy=P.UncertaintySampling(random_state=s), n_jobs=2, random_state=s),
-                   "clf", lambda c, s: {"clf": _clf(c, s)}, max_bs=1, wrapper=True, samplewise=True))
-    return E
+                   "clf", lambda c, s: {"clf": _clf(c, s)}, max_bs=1, wrapper=True, samplewise=True, slow=True))
+    return E + _variants(P, clfkw, altkw)
+
+
+def _cost(c):
+    K = len(c)
+    return 1.0 - np.eye(K) + 0.5 * np.triu(np.ones((K, K)), 1)
+
+
+def _feature_map(X):
+    X = np.asarray(X, dtype=float)
+    return np.column_stack([X, X[:, :1] ** 2])
+
+
+def _abs_loss(a, b):
+    return float(np.mean(np.abs(np.asarray(a, dtype=float) - np.asarray(b, dtype=float))))
+
+
+def _variants(P, clfkw, altkw):
+    """Non-default constructor parameters ("all configurations"): one entry per strategy and parameter group, every value a
+    documented, valid setting.  Names are "<base entry>{<setting>}"; recorded findings of the base entry apply."""
+    V = []
+
+    def add(base, setting, make, task, kw=None, **flags):
+        V.append(Entry(f"{base}{{{setting}}}", make, task, kw, variant=True, **flags))
+    ens = lambda c, s: {"ensemble": _ens(c, s)}
+    lin = lambda c, s: {"reg": _lin(s)}
+    nic = lambda c, s: {"reg": _nic(s)}
+    add("ProbabilisticAL", "prior=0.5,m_max=2", lambda c, s: P.ProbabilisticAL(prior=0.5, m_max=2, random_state=s), "clf", clfkw, samplewise=True)
+    add("ProbabilisticAL", "metric=rbf,gamma=mean", lambda c, s: P.ProbabilisticAL(metric="rbf", metric_dict={"gamma": "mean"}, random_state=s), "clf", clfkw, samplewise=True)
+    add("ProbabilisticAL", "metric=rbf,gamma=0.5", lambda c, s: P.ProbabilisticAL(metric="rbf", metric_dict={"gamma": 0.5}, random_state=s), "clf", clfkw, samplewise=True)
+    add("UncertaintySampling[least_confident]", "cost_matrix", lambda c, s: P.UncertaintySampling(method="least_confident", cost_matrix=_cost(c), random_state=s), "clf", altkw, samplewise=True)
+    add("UncertaintySampling[margin_sampling]", "cost_matrix", lambda c, s: P.UncertaintySampling(method="margin_sampling", cost_matrix=_cost(c), random_state=s), "clf", altkw, samplewise=True)
+    # the expected average precision of a sample is computed against the probabilities of all other candidates: set dependent
+    add("UncertaintySampling", "expected_average_precision", lambda c, s: P.UncertaintySampling(method="expected_average_precision", random_state=s), "clf", altkw, setdep=True)
+    add("MonteCarloEER", "log_loss", lambda c, s: P.MonteCarloEER(method="log_loss", random_state=s), "clf", clfkw, samplewise=True, slow=True)
+    add("MonteCarloEER", "cost_matrix,subtract_current", lambda c, s: P.MonteCarloEER(cost_matrix=_cost(c), subtract_current=True, random_state=s), "clf", clfkw, samplewise=True, slow=True)
+    add("ValueOfInformationEER", "flags_off", lambda c, s: P.ValueOfInformationEER(consider_unlabeled=False, candidate_to_labeled=False, random_state=s), "clf", clfkw, feat=False, samplewise=True, slow=True)
+    add("ValueOfInformationEER", "labeled_off,subtract,normalize", lambda c, s: P.ValueOfInformationEER(consider_labeled=False, subtract_current=True, normalize=True, cost_matrix=_cost(c), random_state=s),
+        "clf", clfkw, feat=False, samplewise=True, slow=True)
+    add("QueryByCommittee[KL_divergence]", "eps=1e-3", lambda c, s: P.QueryByCommittee(method="KL_divergence", eps=1e-3, random_state=s), "clf", ens, samplewise=True)
+    add("Quire", "lmbda=0.5,gamma=0.5", lambda c, s: P.Quire(classes=list(c), lmbda=0.5, metric="rbf", metric_dict={"gamma": 0.5}, random_state=s), "clf", feat=False, samplewise=True, anyidx=False)
+    add("FourDs", "lmbda=0.3", lambda c, s: P.FourDs(lmbda=0.3, random_state=s), "clf", lambda c, s: {"clf": _mix(c, s)}, feat=False, setdep=True)
+    add("CostEmbeddingAL", "nn_params,mds_params,embed_dim", lambda c, s: P.CostEmbeddingAL(classes=list(c), embed_dim=2, mds_params={"max_iter": 30}, nn_params={"algorithm": "brute"}, random_state=s),
+        "clf", slow=True, samplewise=True, stochastic=True)
+    add("CostEmbeddingAL", "cost_matrix,base_regressor", lambda c, s: P.CostEmbeddingAL(classes=list(c), cost_matrix=_cost(c), base_regressor=_lin(s), random_state=s),
+        "clf", slow=True, samplewise=True, stochastic=True)
+    add("ExpectedModelChangeMaximization", "bootstrap=2,n_train=0.7,ord=1,feature_map", lambda c, s: P.ExpectedModelChangeMaximization(bootstrap_size=2, n_train=0.7, ord=1, feature_map=_feature_map, random_state=s),
+        "reg", lin, samplewise=True, stochastic=True)
+    add("ExpectedModelOutputChange", "assume_linear,loss", lambda c, s: P.ExpectedModelOutputChange(integration_dict={"method": "assume_linear"}, loss=_abs_loss, random_state=s), "reg", nic, samplewise=True, slow=True)
+    add("ExpectedModelVarianceReduction", "assume_linear", lambda c, s: P.ExpectedModelVarianceReduction(integration_dict={"method": "assume_linear"}, random_state=s), "reg", nic, samplewise=True, slow=True)
+    add("KLDivergenceMaximization", "assume_linear", lambda c, s: P.KLDivergenceMaximization(integration_dict_target_val={"method": "assume_linear"},
+        integration_dict_cross_entropy={"method": "assume_linear"}, random_state=s), "reg", nic, samplewise=True, slow=True)
+    add("GreedySamplingX", "manhattan", lambda c, s: P.GreedySamplingX(metric="manhattan", metric_dict={}, random_state=s), "reg", samplewise=True)
+    add("GreedySamplingTarget", "GSy,n_GSx=2", lambda c, s: P.GreedySamplingTarget(method="GSy", n_GSx_samples=2, random_state=s), "reg", lin, samplewise=True)
+    add("GreedySamplingTarget", "metrics", lambda c, s: P.GreedySamplingTarget(x_metric="manhattan", y_metric="manhattan", x_metric_dict={}, y_metric_dict={}, n_GSx_samples=3, random_state=s), "reg", lin, samplewise=True)
+    add("BatchBALD", "n_MC=20,eps", lambda c, s: P.BatchBALD(n_MC_samples=20, eps=1e-3, random_state=s), "clf", ens, setdep=True)
+    add("GreedyBALD", "eps=1e-3", lambda c, s: P.GreedyBALD(eps=1e-3, random_state=s), "clf", ens, samplewise=True)
+    add("Clue", "margin_sampling,cluster_algo_dict", lambda c, s: P.Clue(method="margin_sampling", cluster_algo_dict={"n_init": 2}, random_state=s), "clf", altkw, setdep=True)
+    add("DropQuery", "rate=0.5,n=3,cluster_algo_dict", lambda c, s: P.DropQuery(dropout_rate=0.5, n_dropout_samples=3, cluster_algo_dict={"n_init": 2}, random_state=s), "clf", altkw, setdep=True)
+    add("TypiClust", "k=2,cluster_algo_dict", lambda c, s: P.TypiClust(k=2, cluster_algo_dict={"n_init": 2}, random_state=s), "clf", setdep=True)
+    add("ProbCover", "n_classes,deltas,alpha", lambda c, s: P.ProbCover(n_classes=len(c), deltas=[1.0, 0.5, 2.0], alpha=0.8, cluster_algo_dict={"n_init": 2}, random_state=s), "clf", setdep=True)
+    add("ContrastiveAL", "nearest_neighbors_dict", lambda c, s: P.ContrastiveAL(nearest_neighbors_dict={"n_neighbors": 3}, eps=1e-3, random_state=s), "clf", altkw, samplewise=True)
+    add("Falcun", "gamma=1", lambda c, s: P.Falcun(gamma=1, random_state=s), "clf", altkw, mode="sampling", setdep=True)
+    add("RegressionTreeBasedAL[representativity]", "max_iter=1", lambda c, s: P.RegressionTreeBasedAL(method="representativity", max_iter_representativity=1, random_state=s), "reg",
+        lambda c, s: {"reg": _tree(s)}, feat=False, setdep=True)
+    add("SubSamplingWrapper", "max_candidates=3", lambda c, s: P.SubSamplingWrapper(query_strategy=P.UncertaintySampling(random_state=s), max_candidates=3, random_state=s),
+        "clf", clfkw, wrapper=True, setdep=True, subsample=("int", 3))
+    add("SubSamplingWrapper", "default_fraction", lambda c, s: P.SubSamplingWrapper(query_strategy=P.UncertaintySampling(random_state=s), random_state=s),
+        "clf", clfkw, wrapper=True, setdep=True, subsample=0.1)
+    add("ParallelUtilityEstimationWrapper", "n_jobs=1,threading", lambda c, s: P.ParallelUtilityEstimationWrapper(query_strategy=P.UncertaintySampling(random_state=s), n_jobs=1,
+        parallel_dict={"backend": "threading"}, random_state=s), "clf", clfkw, max_bs=1, wrapper=True, samplewise=True)
+    return V
 
 
 # ------------------------------------------------------------------ data ----
@@ -173,9 +247,13 @@ def gen_data(rng, task, n=None, binary=False, cold=None):
     """Small data sets built to hit the logic layer: integer grid (duplicated points),
     constant feature, cold start, single candidate."""
     n = n or int(rng.integers(6, 13))
-    style = str(rng.choice(["grid", "grid", "const_feature", "normal", "outlier"]))
+    style = str(rng.choice(["grid", "grid", "const_feature", "normal", "outlier", "blobs"]))
+    blob = None
     if style == "normal":
         X = rng.normal(size=(n, 2))
+    elif style == "blobs":            # two well separated clusters, the true label is the cluster (the usual demo data)
+        blob = (np.arange(n) >= n // 2).astype(int)
+        X = rng.normal(size=(n, 2)) * 0.6 + np.where(blob[:, None] == 1, 1.0, -1.0)
     elif style == "outlier":          # one gross outlier: its kernel similarity to every other sample underflows to exactly 0
         X = rng.normal(size=(n, 2))
         X[int(rng.integers(n))] = [150.0, -150.0]
@@ -186,12 +264,23 @@ def gen_data(rng, task, n=None, binary=False, cold=None):
     classes = [0, 1] if binary or rng.random() < 0.5 else [0, 1, 2]
     if task == "clf":
         y_true = rng.integers(0, len(classes), size=n).astype(float)
+        if blob is not None:
+            y_true = blob.astype(float)
     else:
         y_true = np.round(rng.normal(size=n), 1)
+        if blob is not None:
+            y_true = np.round(blob + 0.1 * rng.normal(size=n), 1)
     y = y_true.copy()
-    labeling = str(cold or rng.choice(["half", "half", "cold", "one_left", "few"]))
+    labeling = str(cold or rng.choice(["half", "half", "cold", "one_left", "few", "one_class"]))
     if labeling == "cold":
         y[:] = np.nan
+    elif labeling == "one_class":     # only samples of the smallest class / lowest targets are known at the beginning
+        lo = np.flatnonzero(y_true == y_true.min()) if task == "clf" else np.argsort(y_true)[: max(1, n // 3)]
+        keep = lo[: max(1, min(len(lo), n // 3))]
+        y[:] = np.nan
+        y[keep] = y_true[keep]
+        if np.all(~np.isnan(y)):
+            y[-1] = np.nan
     elif labeling == "one_left":
         y[int(rng.integers(n))] = np.nan
     elif labeling == "few":
